@@ -64,6 +64,10 @@ def run(chk):
     sw, res = chk.generate(sweep.c02_routes_task, tasks)
     chk.extra['route_results_judged'] = sum(r['events'] for r in res)
     sh += common.stage_wide(chk, 'decl')
+    # two managers built from ONE levels dict: the recorded one must not notice its sibling
+    sh += common.stage_histories(chk, ntraces=16 if q else 400, steps=30 if q else 60,
+                                 nvars_choices=[3, 4], profile='sibling', tag='sib')
+    chk.own_clauses = tuple(chk.own_clauses) + ('frame.held', 'decl.views', 'reorder.held_den')
     chk.validate('TraceBDD', 'TraceBDD.cfg', sh)
     chk.validate('TraceSweep', 'TraceSweep.cfg', sw)
 
